@@ -18,7 +18,7 @@ def _bytes(h, name):
     return SeqVal("byte", h.ctx.fresh_term(BYTES, name), "bytes")
 
 
-def _protocol(h, framing=True):
+def _protocol(h, framing=True, cls=None):
     it, ctx = h.it, h.ctx
     log = []
     ctx.ghost["lines"] = log
@@ -37,7 +37,7 @@ def _protocol(h, framing=True):
         return None
 
     tasks.attrs["add_job"] = ModelFn("tasks.add_job", add_job)
-    p = Obj(TR.BaseMySensorsProtocol, name="protocol")
+    p = Obj(cls or TR.BaseMySensorsProtocol, name="protocol")
     p.fields.update(buffer=_bytes(h, "buffer"), transport=None, gateway=gw, conn_lost_callback=None)
     ctx.add_fact(z3.Not(z3.Contains(p.fields["buffer"].term, z3.Unit(z3.BitVecVal(10, 8)))))  # Inv: no terminator left in the buffer
 
@@ -55,28 +55,36 @@ def _protocol(h, framing=True):
     return p
 
 
-@contract("serial.threaded:Packetizer.data_received", props=["C19"])
-class DataReceived:
-    extra_roots = [SERIAL_ROOT]
-    loops = {
-        ("serial.threaded", "Packetizer.data_received", 0): Loop(
-            # everything received so far = the emitted packets, each followed by its terminator, then the buffer
-            lambda L, old, G: old.G.flat + old.self.buffer == G.flat + L.self.buffer,
-            ghosts=["flat", "npackets"],
-            fields=[("self", "buffer")],
-        )
-    }
+def _data_received_contract(mod, cls):
+    """The contract is on whatever `data_received` the repository's protocol class resolves to (today the
+    inherited serial.threaded.Packetizer.data_received; an override in the repository is verified instead)."""
+    ns = dict(
+        extra_roots=[SERIAL_ROOT],
+        loops={
+            ("serial.threaded", "Packetizer.data_received", 0): Loop(
+                # everything received so far = the emitted packets, each followed by its terminator, then the buffer
+                lambda L, old, G: old.G.flat + old.self.buffer == G.flat + L.self.buffer,
+                ghosts=["flat", "npackets"],
+                fields=[("self", "buffer")],
+            )
+        },
+        setup=lambda h: ([_protocol(h, cls=cls), _bytes(h, "data")], {}),
+        raises={},
+        ensures={
+            # framing: old buffer ++ chunk = packets (each + "\n") ++ new buffer, and no terminator stays behind
+            "decomposition": lambda old, self, data, result: old.self.buffer + old.data == old.G_now.flat + self.buffer,
+            "buffer-has-no-terminator": lambda old, self, data, result: NL not in self.buffer,
+        },
+    )
+    name = f"{cls.__name__}.data_received"
+    return contract(f"{mod}:{cls.__name__}.data_received", props=["C19"], name=name)(type("DataReceived_" + cls.__name__, (), ns))
 
-    def setup(h):
-        return [_protocol(h), _bytes(h, "data")], {}
 
-    raises = {}
+from mysensors import gateway_tcp as GT
 
-    ensures = {
-        # framing: old buffer ++ chunk = packets (each + "\n") ++ new buffer, and no terminator stays behind
-        "decomposition": lambda old, self, data, result: old.self.buffer + old.data == old.G_now.flat + self.buffer,
-        "buffer-has-no-terminator": lambda old, self, data, result: NL not in self.buffer,
-    }
+DataReceived = _data_received_contract("mysensors.transport", TR.BaseMySensorsProtocol)
+DataReceivedAsync = _data_received_contract("mysensors.transport", TR.AsyncMySensorsProtocol)
+DataReceivedAsyncTcp = _data_received_contract("mysensors.gateway_tcp", GT.AsyncTCPMySensorsProtocol)
 
 
 def _unique(p, q, r, t):
@@ -102,7 +110,7 @@ class LemmaFramingUnique:
     ensures = {"same-packet": lambda old, p, q, r, t, result: p == q, "same-rest": lambda old, p, q, r, t, result: r == t}
 
 
-@contract("serial.threaded:LineReader.handle_packet", props=["C19"])
+@contract("mysensors.transport:BaseMySensorsProtocol.handle_packet", props=["C19"])
 class HandlePacket:
     """decoding happens per packet, i.e. after framing: a split inside a multi-byte character or between CR
     and LF cannot matter; each packet becomes exactly one `logic` job"""
